@@ -589,3 +589,61 @@ func (r *Runner) makeFunc(ft reflect.Type, rw *raw) reflect.Value {
 		return out
 	})
 }
+
+// WarmUp calls read-only methods of an arbitrary container (any element type of
+// integer kind) chosen by the raw integers: observers, lookups and searches whose
+// parameters are integers or integer variadics.  It is used by checks that want
+// caches, memoised results and lazily built structures to be "warm" before they
+// look for aliasing (C16).  Methods with other parameter kinds are not called.
+func WarmUp(obj any, raws []int) []string {
+	v := reflect.ValueOf(obj)
+	t := v.Type()
+	var names []string
+	for i := 0; i < t.NumMethod(); i++ {
+		m := t.Method(i)
+		if !ReadOnly[m.Name] {
+			continue
+		}
+		ok := true
+		for j := 1; j < m.Type.NumIn(); j++ {
+			pt := m.Type.In(j)
+			if m.Type.IsVariadic() && j == m.Type.NumIn()-1 {
+				pt = pt.Elem()
+			}
+			switch pt.Kind() {
+			case reflect.Int, reflect.Int64, reflect.Int32:
+			default:
+				ok = false
+			}
+		}
+		if ok {
+			names = append(names, m.Name)
+		}
+	}
+	sort.Strings(names)
+	var called []string
+	for _, r := range raws {
+		if len(names) == 0 {
+			break
+		}
+		name := names[mod(r, len(names))]
+		m := v.MethodByName(name)
+		mt := m.Type()
+		var args []reflect.Value
+		x := r / len(names)
+		for j := 0; j < mt.NumIn(); j++ {
+			pt := mt.In(j)
+			if mt.IsVariadic() && j == mt.NumIn()-1 {
+				for k := 0; k < 1+mod(x, 2); k++ {
+					args = append(args, reflect.ValueOf(mod(x+k, 12)).Convert(pt.Elem()))
+				}
+				continue
+			}
+			args = append(args, reflect.ValueOf(mod(x, 12)).Convert(pt))
+			x /= 3
+		}
+		m.Call(args)
+		called = append(called, name)
+	}
+	return called
+}
